@@ -6,8 +6,10 @@ import (
 	"io"
 	"math/big"
 	"math/rand"
+	"runtime/debug"
 	"sort"
 	"sync"
+	"syscall"
 
 	"github.com/crate-crypto/go-ipa/bandersnatch/fp"
 	"github.com/crate-crypto/go-ipa/bandersnatch/fr"
@@ -592,4 +594,50 @@ func relateZ(es []banderwagon.Element, rng *rand.Rand) {
 		prod = ref.MulP(prod, z)
 	}
 	scale(j, ref.InvP(prod))
+}
+
+// roBytes returns a copy of b that lives on a page of READ-ONLY memory (mmap + mprotect): a callee that writes to its
+// input - even transiently, restoring it before it returns - faults. callRO runs f with faults turned into panics and
+// reports whether f faulted. The pages are never unmapped (a few kB per process).
+func roBytes(b []byte) []byte {
+	n := len(b)
+	pg := syscall.Getpagesize()
+	sz := (n/pg + 1) * pg
+	mem, err := syscall.Mmap(-1, 0, sz, syscall.PROT_READ|syscall.PROT_WRITE, syscall.MAP_ANON|syscall.MAP_PRIVATE)
+	if err != nil {
+		return nil
+	}
+	// the data ends at the end of the mapping, so that a read or write past the end faults as well
+	off := sz - n
+	copy(mem[off:], b)
+	if syscall.Mprotect(mem, syscall.PROT_READ) != nil {
+		return nil
+	}
+	return mem[off : off+n : off+n]
+}
+
+func callRO(f func()) (faulted bool, msg string) {
+	old := debug.SetPanicOnFault(true)
+	defer debug.SetPanicOnFault(old)
+	defer func() {
+		if r := recover(); r != nil {
+			faulted, msg = true, fmt.Sprint(r)
+		}
+	}()
+	f()
+	return false, ""
+}
+
+var roBudget = 600
+
+// roBytesBudget is roBytes with a per-process budget (each call maps a page); beyond it the slice itself is returned.
+func roBytesBudget(b []byte) []byte {
+	if roBudget <= 0 || len(b) == 0 {
+		return b
+	}
+	roBudget--
+	if rb := roBytes(b); rb != nil {
+		return rb
+	}
+	return b
 }
